@@ -240,7 +240,7 @@ func bubbleUpNullValuesInPlaceRec(schema *ast.Schema, currentType *ast.Type, sel
 				if lowerErr != nil {
 					return nil, false, lowerErr
 				}
-				bubbleUp = lowerBubbleUp
+				bubbleUp = bubbleUp || lowerBubbleUp
 				errs = append(errs, lowerErrs...)
 			case *ast.InlineFragment:
 				fragment := selection
@@ -248,7 +248,7 @@ func bubbleUpNullValuesInPlaceRec(schema *ast.Schema, currentType *ast.Type, sel
 				if lowerErr != nil {
 					return nil, false, lowerErr
 				}
-				bubbleUp = lowerBubbleUp
+				bubbleUp = bubbleUp || lowerBubbleUp
 				errs = append(errs, lowerErrs...)
 			default:
 				err = fmt.Errorf("unknown selection type: %T", selection)
